@@ -63,3 +63,16 @@ package lists
 //@   at call MarshalData#1 assert forall(k, 0, len(params), unbox(arg2, []any)[k] == $cgt(any(params[k]), cachedDt))
 //@   at call MarshalData#1 assert forall(k, 0, len(old@pre1(array)), unbox(arg2, []any)[len(params) + k] == old@pre1(array[k]))
 //@   ensures imp(result == nil, called("MarshalData") && called("(lang/stdio.Io).Write"))
+
+//@ func cmdAppend [C38]
+//@   check none
+//@   requires p != nil
+//@   at call (lang/stdio.Io).ReadArrayWithType#* modifies nothing
+//@   at call (*Parameters).StringArray#* modifies nothing
+//@   loop 1 invariant params == old@pre1(params) && len(array) == len(old@pre1(array)) + $idx + 1 && $idx + 1 <= len(params)
+//@   loop 1 invariant forall(k, 0, len(old@pre1(array)), array[k] == old@pre1(array[k]))
+//@   loop 1 invariant forall(k, 0, $idx + 1, array[len(old@pre1(array)) + k] == $cgt(any(params[k]), cachedDt))
+//@   at call MarshalData#1 assert typeis(arg2, []any) && len(unbox(arg2, []any)) == len(params) + len(old@pre1(array))
+//@   at call MarshalData#1 assert forall(k, 0, len(old@pre1(array)), unbox(arg2, []any)[k] == old@pre1(array[k]))
+//@   at call MarshalData#1 assert forall(k, 0, len(params), unbox(arg2, []any)[len(old@pre1(array)) + k] == $cgt(any(params[k]), cachedDt))
+//@   ensures imp(result == nil, called("MarshalData") && called("(lang/stdio.Io).Write"))
